@@ -20,8 +20,7 @@
      D         Spec.DbLoadSpec.spec_load: the dump of what the text denotes; ERR for a text that is not a
                database (incl. unknown module headers and keys the module does not have); "-" only for
                texts with non-ASCII line edges (Unicode white space is outside the reference reader)
-   known = 1 (D only): Spec.DbLoadSpec.known_db, the documented defect classes of the open findings
-               C06-list-remainder and C06-unknown-item-skipped. *)
+   known is always 0: no open defect class is left (C06-list-remainder and C06-unknown-item-skipped are repaired). *)
 From Coq Require Import List NArith Bool.
 From Coq Require Import Strings.Byte.
 From HN Require Import Base.Bytes Model.SigAst Model.SigText Model.DbLoad Spec.SigTextSpec Spec.DbLoadSpec.
@@ -106,7 +105,7 @@ Definition run_line (l : bytes) : bytes :=
           else if bytes_eqb k (bs "L") then
             out3 (of_opt show_label (label_from_str t)) (of_opt show_label (spec_label t)) false
           else if bytes_eqb k (bs "D") then
-            out3 (of_opt dump_db (load t)) (of_verdict dump_db (spec_load t)) (known_db t)
+            out3 (of_opt dump_db (load t)) (of_verdict dump_db (spec_load t)) false
           else bad
       | None => bad end
   | None => bad end.
